@@ -48,19 +48,14 @@ func runC11(c *core.Ctx) {
 func ruleReadErrorCloses(c *core.Ctx, a *epAnchors) {
 	const rule = "C11.read-error"
 	fn := a.process
-	msgRead := c.Func("bus/net", "Message", "Read")
-	var read ssa.CallInstruction
-	for _, call := range core.Calls(fn) {
-		if core.IsCallTo(call, msgRead) {
-			read = call
-		}
-	}
-	if read == nil {
-		c.Undecided(rule, "bus/net.endPoint.process", fn.Pos(), "no Message.Read call in process")
+	rs := a.readSite(c)
+	if rs.problem != "" {
+		c.Undecided(rule, "bus/net.endPoint.process", fn.Pos(), rs.problem)
 		return
 	}
+	read := rs.call
 	rin := read.(ssa.Instruction)
-	isErr := func(v ssa.Value) bool { cr, _ := core.CallResult(v); return cr != nil && ssa.CallInstruction(cr) == read }
+	isErr := rs.isErr
 	var closes []ssa.Instruction
 	for _, call := range core.Calls(fn) {
 		if core.IsCallTo(call, a.epCloseWith) {
@@ -231,6 +226,7 @@ type clientCall struct {
 	make                ssa.CallInstruction // MakeHandler
 	send                ssa.CallInstruction // first EndPoint.Send
 	filter, closer      *ssa.Function
+	subst               map[*ssa.Parameter]ssa.Value // factory parameters of the filter -> arguments in Call
 	queue               ssa.Value
 	site                handlerSite
 }
@@ -246,7 +242,7 @@ func getClientCall(c *core.Ctx, a *epAnchors, rule string) *clientCall {
 		if s.fn == fn && s.via == "MakeHandler" {
 			cc.make = s.call
 			cc.site = s
-			cc.filter, _ = funcValue(s.filter)
+			cc.filter, cc.subst, _ = funcValueCtx(s.filter)
 			cc.closer, _ = funcValue(s.closer)
 			cc.queue = core.Canon(s.queue)
 		}
@@ -504,12 +500,28 @@ func ruleSubscriptionsClose(c *core.Ctx, a *epAnchors) {
 	}
 	// events channel: the MakeChan of element type []byte returned by Subscribe
 	var goFn *ssa.Function
+	goArgs := map[*ssa.Parameter]ssa.Value{} // parameters of the goroutine -> what Subscribe passes
 	for _, call := range core.Calls(fn) {
 		if g, ok := call.(*ssa.Go); ok {
 			if f, ok := funcValue(g.Call.Value); ok && f != nil {
 				goFn = f
+				args := g.Call.Args
+				for i, p := range f.Params {
+					if i < len(args) {
+						goArgs[p] = args[i]
+					}
+				}
 			}
 		}
+	}
+	inSubscribe := func(v ssa.Value) ssa.Value {
+		v = core.Canon(v)
+		if p, ok := v.(*ssa.Parameter); ok {
+			if a, ok := goArgs[p]; ok {
+				return core.Canon(a)
+			}
+		}
+		return v
 	}
 	if goFn == nil {
 		c.Fail(rule, "bus.client.Subscribe/goroutine", fn.Pos(), "Subscribe starts no forwarding goroutine")
@@ -556,12 +568,12 @@ func ruleSubscriptionsClose(c *core.Ctx, a *epAnchors) {
 		for _, in := range b.Instrs {
 			if sel, ok := in.(*ssa.Select); ok {
 				for _, st := range sel.States {
-					if st.Dir == types.RecvOnly && core.Canon(st.Chan) == core.Canon(site.queue) {
+					if st.Dir == types.RecvOnly && inSubscribe(st.Chan) == core.Canon(site.queue) {
 						hasOk = true
 					}
 				}
 			}
-			if u, ok := in.(*ssa.UnOp); ok && u.Op == token.ARROW && core.Canon(u.X) == core.Canon(site.queue) {
+			if u, ok := in.(*ssa.UnOp); ok && u.Op == token.ARROW && inSubscribe(u.X) == core.Canon(site.queue) {
 				hasOk = true
 			}
 		}
